@@ -91,7 +91,7 @@ def c09(prop, tier, verdict):
     cov['distinct_nontrivial'] += pcov['plug_nontrivial']
     # hooks must also fire at most once when a message is re-written after a redial
     rcov, _ = eng_generic.run(prop, tier, verdict, 'Redial', 'redial', 'PRedial', lambda line, s: 'redialhooks:%s:%s.%s' % (line.get('ev'), line.get('pl'), line.get('stage')),
-                              consts={'MaxOps': '7', 'Budgets': '{0, 2, 99}'}, extra_cfg='VIEW view', min_count=500, label='redial')
+                              consts={'MaxOps': '7', 'Budgets': '{0, 2, 3, 99}'}, extra_cfg='VIEW view', min_count=500, label='redial')
     cov['redial_traces'] = rcov['traces_validated_against_impl']
     cov['traces_validated_against_impl'] += rcov['traces_validated_against_impl']
     return 'model_checking', cov, DISP_ASSUME + ['placement trees: 0-2 global-left, 0-2 global-right, 0-3 nested groups with 0-1 plugin, 1-2 sibling handlers with 0-1 plugin, optionally one global plugin appended after the routes exist (its hooks on route chains are unconstrained)']
@@ -209,7 +209,7 @@ def c13(prop, tier, verdict):
     def cl(line, s):
         ops = '-'.join(x['op'] for x in s.get('steps', []))
         return 'redial:%s%s/budget=%s' % (line.get('ev'), ':expect=' + str(line.get('expect')) if line.get('expect') else '', (s.get('steps') or [{}])[0].get('budget'))
-    cov, _ = eng_generic.run(prop, tier, verdict, 'Redial', 'redial', 'PRedial', cl, consts={'MaxOps': '8' if tier == 'thorough' else '7', 'Budgets': '{0, 2, 99}'},
+    cov, _ = eng_generic.run(prop, tier, verdict, 'Redial', 'redial', 'PRedial', cl, consts={'MaxOps': '8' if tier == 'thorough' else '7', 'Budgets': '{0, 2, 3, 99}'},
                              mc_cfg='Redial_mc.cfg', extra_cfg='VIEW view', min_count=500, nontrivial=lambda s: any(x['op'] in ('cut', 'down') for x in s.get('steps', [])))
     return 'model_checking', cov, ['real loopback TCP through a forwarder that can refuse connections and cut existing ones; redial interval 3 ms; budgets 0, 2 and unlimited',
                                    'fault sequences = every transition of spec/Redial.tla (histories of at most 7 / 8 operations: call, in-flight call, cut, server down/up, SetID, quiescence wait), expectations only where the statement fixes the outcome (calls racing with a redial and calls on an ended session with the server back are left open)',
